@@ -19,7 +19,7 @@ from .. import runner, e1, w1
 from . import c01
 
 LEVEL = 'model_checking'
-EDITS = ['twovar', 'reparam', 'lib2', 'libscript', 'invars']
+EDITS = ['twovar', 'reparam', 'lib2', 'libscript', 'invars', 'threevar', 'twins']
 
 
 def qpaths(proj, v, dl, mode):
@@ -41,11 +41,13 @@ def variant_sig(stack, v, kind='dist'):
         # checkout steps consume none of the toggled variables
         return {'lib': ('lib-src',), 'lib2': ('lib2-src',), 'dl': ('dl-src', v['urlsrc'])}.get(name)
     if name == 'lib':
-        p = 'y' if stack == 'root/lib' else ('x' if v['reparam'] else '')
+        p = 'y' if stack == 'root/lib' else ('z' if stack == 'root/via3/lib' else ('x' if v['reparam'] else ''))
         return ('lib', v['libscript'], v['invars'] and v['var'], p, v['clssetup'], v['toolpath'])
     if name == 'app': return ('app', v['reparam'], v['lib2'], v['provide'], v['libscript'], v['invars'], v['toolpath'], v['clssetup'], v['urlsrc'] and v['lib2'], v['defval'] and v['lib2'])
     if name == 'root': return None      # changes with everything
     if name == 'gen': return ('gen',)
+    if name in ('alpha', 'beta'): return (name,)          # identical packages of different recipes: separate directories in develop mode
+    if name == 'via3': return ('via3', v['libscript'], v['invars'] and v['var'], v['clssetup'], v['toolpath'])
     if name == 'lib2': return ('lib2', v['defval'], v['urlsrc'])
     if name == 'dl': return ('dl', v['urlsrc'])
     return None
@@ -182,6 +184,9 @@ def run(ctx):
         for h in itertools.product(EDITS[:4] if quick else EDITS, repeat=L):
             if quick and L == 2 and not (h[0] == h[1] or {h[0], h[1]} <= {'twovar', 'reparam', 'lib2'}): continue
             hists.append(h)
+    # three variants of one recipe in consecutive directories, a fourth one arriving later; identical packages of two recipes
+    hists += [('twovar', 'threevar'), ('twovar', 'threevar', 'reparam'), ('threevar', 'twovar', 'libscript'), ('twins',), ('twins', 'clean'), ('twins', 'clean-dry'),
+              ('twins', 'release', 'clean'), ('twovar', 'threevar', 'clean'), ('twovar', 'threevar', 'clean-s')]
     # cleans after (edit*, [release])
     for pre in [()] + [(e,) for e in EDITS[:3]] + ([] if quick else [(a, b) for a in EDITS[:3] for b in EDITS[:3]]):
         for rel in ((), ('release',)):
